@@ -213,6 +213,19 @@ class World:
         assignment or None (refused; the execution should end)."""
         self.phase = "sched"
         want = None
+        bad_size = not (cpu > 0 and ram > 0)
+        if bad_size:
+            # no property says WHERE a size that is not positive has to be refused (when the assignment is built, or when
+            # the executor gets it): try to build it; if that succeeds the executor-side model refuses the batch
+            try:
+                a = Assignment(ops=list(ops), cpu=cpu, ram=ram, priority=prio or ops[0].pipeline.priority, pool_id=pool, pipeline_id=ops[0].pipeline.pipeline_id)
+            except Exception as e:
+                self.exception = ("sched", self.tick, e, site_of(e))
+                self.stats["rejected"] += 1
+                self.ended = True
+                return None
+            self.note_scheduler_assignments([a])
+            return a
         if self.model is not None and not self.model_dead:
             snap = dict(self.model.opstate)
             try:
@@ -375,7 +388,7 @@ class World:
             if exc is None:
                 tags = {"oversell-cpu": {"C03"}, "oversell-ram": {"C03"}, "bad-pool": {"C09"},
                         "suspend-not-running": {"C10"}, "suspend-not-at-boundary": {"C10"}, "suspend-twice": {"C10"},
-                        "dependency": {"C01"}, "multi-op-disabled": {"C08"}}.get(rej.reason, {"C09"})
+                        "dependency": {"C01"}, "multi-op-disabled": {"C08"}, "bad-size": {"C03"}}.get(rej.reason, {"C09"})
                 self.flag(tags, "inadmissible-command-executed", f"{rej.reason} (pool {rej.pool}) {rej.detail}: the tick ran without an error")
             else:
                 # rejected as a whole: the offending pool is untouched (C03)
@@ -451,6 +464,17 @@ class World:
                         tags |= {"C09", "C03"}
                     if F in (st.value, w):
                         tags |= {"C09"}
+                    if st.value == C and w == R:
+                        # reported complete while it still has ticks to run: if its container now offers itself for
+                        # suspension, a suspension would be accepted in the middle of an operator (C10)
+                        for pp in ex.pools:
+                            for c in pp.active_containers:
+                                if op in c.operators:
+                                    try:
+                                        if c.can_suspend_container():
+                                            tags |= {"C10"}
+                                    except Exception:
+                                        pass
                     self.flag(tags, "operator-state-mismatch", f"tick {self.tick} {self.name(op)}: implementation {st.value}, model {w}")
                     self.model_dead = True
         if self.model_dead:
